@@ -60,3 +60,31 @@ package mvs
 //@   loop 0: invariant selected == "none" || semcmp(selected, p.Version) < 0
 //@   loop 0: invariant rangeindex < len(versions)
 //@   loop 0: invariant (forall j: int :: 0 <= j && j <= rangeindex ==> !(semmajor(versions[j].Version) == semmajor(p.Version) && semcmp(versions[j].Version, p.Version) < 0 && semvalid(versions[j].Version))) ==> selected == "none"
+
+// ---------------------------------------------------------------- C10: the wrapper around the library's build list
+
+//@ func mvs.versionRequirement
+//@   ensures result.Path == m.Path && result.Version == m.Version
+//@ func mvs.requirementVersion
+//@   ensures result.Path == p.Path && result.Version == p.Version
+//@ func mvs.newReqs
+//@   ensures result != nil && result.root == root && result.resolver == resolver
+
+// The resulting map has exactly the paths of the library's list, each at that list's version.
+//@ func mvs.BuildList
+//@   requires root != nil
+//@   ensures every-entry: result.1 == nil ==> (forall j: int :: 0 <= j && j < len(buildList) ==> (has(result.0, buildList[j].Path) && result.0[buildList[j].Path] == buildList[j].Version))
+//@   ensures nothing-else: result.1 == nil ==> (forall k: string :: has(result.0, k) ==> (exists j: int :: 0 <= j && j < len(buildList) && buildList[j].Path == k))
+//@   modifies heap, smap
+//@   loop 1: invariant versionMap != nil && rangeindex < len(buildList)
+//@   loop 1: invariant distinct: forall i: int, j: int :: 0 <= i && i < j && j < len(buildList) ==> buildList[i].Path != buildList[j].Path
+//@   loop 1: invariant every-entry: forall j: int :: 0 <= j && j <= rangeindex ==> (has(versionMap, buildList[j].Path) && versionMap[buildList[j].Path] == buildList[j].Version)
+//@   loop 1: invariant nothing-else: forall k: string :: has(versionMap, k) ==> (exists j: int :: 0 <= j && j <= rangeindex && buildList[j].Path == k)
+
+// ---------------------------------------------------------------- C11: requirement names
+// Adding the requirements that did not exist before never overwrites an entry that is already in
+// the new requirement map: new names are unique and existing names keep their entries.
+//@ func mvs.transformReqs
+//@   requires root != nil
+//@   modifies heap, smap
+//@   loop 3: step new-names-are-fresh: when true ensures forall k: string :: old(has(newReqs, k)) ==> (has(newReqs, k) && newReqs[k] == old(newReqs[k]))
